@@ -216,11 +216,12 @@ def comparable(obs):
                 if k != 'events' and not k.startswith(_SKIP_OBS))
 
 
-def real_mount_crosscheck(prop, pid, tier, seed, results, n):
-    """replay n cases on real nested tmpfs mounts in a private mount
-    namespace and compare the oracle's outcome with the virtual-mount run"""
-    info = {'requested': n, 'available': unshare_available(), 'replayed': 0,
-            'agree': 0, 'disagreements': []}
+def real_mount_crosscheck(prop, pid, tier, seed, results, n, kind='real'):
+    """replay n cases (kind='real') on real nested tmpfs mounts in a private
+    mount namespace, or (kind='cold') with every command in a fresh
+    interpreter, and compare the oracle's outcome with the normal run"""
+    info = {'requested': n, 'available': unshare_available() if kind == 'real'
+            else True, 'replayed': 0, 'agree': 0, 'disagreements': []}
     if not n or not info['available']:
         return info
     picks = [r for r in results if r.get('nontrivial') and
@@ -232,7 +233,7 @@ def real_mount_crosscheck(prop, pid, tier, seed, results, n):
         case = prop.gen_case(case_rng(pid, seed, r['i']), r['i'], tier)
         if case is not None:
             items.append({'i': r['i'], 'case': case})
-    inp = os.path.join(OUT, 'work', 'real-%s-%d.in.json' % (pid, os.getpid()))
+    inp = os.path.join(OUT, 'work', '%s-%s-%d.in.json' % (kind, pid, os.getpid()))
     outp = inp.replace('.in.json', '.out.json')
     with open(inp, 'w') as f:
         json.dump(items, f, default=str)
@@ -242,9 +243,12 @@ def real_mount_crosscheck(prop, pid, tier, seed, results, n):
     env['PYTHONUTF8'] = '1'
     env.setdefault('PYTHONHASHSEED', '0')
     try:
-        p = subprocess.run(['unshare', '-m', '--propagation', 'private',
-                            sys.executable, '-m', 'vf.realrun', pid, inp, outp],
-                           env=env, cwd=VERIF, capture_output=True, timeout=600)
+        cmdline = ['unshare', '-m', '--propagation', 'private',
+                   sys.executable, '-m', 'vf.realrun', pid, inp, outp] \
+            if kind == 'real' else \
+            [sys.executable, '-m', 'vf.realrun', '--cold', pid, inp, outp]
+        p = subprocess.run(cmdline, env=env, cwd=VERIF, capture_output=True,
+                           timeout=900)
         real = json.load(open(outp))
     except Exception as e:
         info['error'] = repr(e)[:300]
@@ -360,6 +364,11 @@ def finish(prop, pid, tier, seed, cfg, results, worker_fail, ncases, wall):
         rm = real_mount_crosscheck(prop, pid, tier, seed, results,
                                    cfg['real_sample'])
         cov['real_mount_crosscheck'] = rm
+    cm = None
+    if cfg.get('cold_sample') and not os.environ.get('VERIF_NO_COLD'):
+        cm = real_mount_crosscheck(prop, pid, tier, seed, results,
+                                   cfg['cold_sample'], kind='cold')
+        cov['fresh_interpreter_crosscheck'] = cm
     ev = {
         'property_id': pid, 'tier': tier, 'seed': seed,
         'level': cfg.get('level', 'exploration'),
@@ -377,6 +386,9 @@ def finish(prop, pid, tier, seed, cfg, results, worker_fail, ncases, wall):
     if rm:
         print('  real-mount cross-check: available=%s replayed=%d agree=%d' % (
             rm['available'], rm['replayed'], rm['agree']))
+    if cm:
+        print('  fresh-interpreter cross-check: replayed=%d agree=%d' % (
+            cm['replayed'], cm['agree']))
     top = sorted(obs.items(), key=lambda kv: -kv[1])[:14]
     print('  observed: ' + ', '.join('%s=%d' % kv for kv in top))
     for m, h in sorted(known_hits.items()):
@@ -402,6 +414,11 @@ def finish(prop, pid, tier, seed, cfg, results, worker_fail, ncases, wall):
             n_incon, json.dumps(incon_why)[:300]))
     if not results:
         reasons.append('no case ran')
+    if cm and cm.get('disagreements'):
+        reasons.append('fork mode and a fresh interpreter disagree on %d of %d '
+                       'replayed cases (harness fidelity): %s' % (
+                           len(cm['disagreements']), cm['replayed'],
+                           json.dumps(cm['disagreements'][:2], default=str)[:600]))
     if rm and rm.get('disagreements'):
         reasons.append('virtual and real mounts disagree on %d of %d replayed '
                        'cases (shim fidelity): %s' % (
